@@ -272,6 +272,7 @@ structure St where
   mUp : List Nat := []                     -- links the harness currently plays as running
   mLive : List Nat := []                   -- sids bound since the last restart
   mParkedL : List (Nat × Nat) := []        -- (sid, uid) parked as unclaimed, in order
+  mQueued : List (Nat × Nat) := []         -- (sid, uid) replies known to sit in the mailbox queue
   mOps : Nat := 0
   mReceived : Nat := 0
   mParked : Nat := 0
@@ -473,6 +474,8 @@ def monDelivered (s : St) (sid u : Nat) (k : Key) (typ : Nat) (res : String)
   let mut s := s
   let live := s.mLive.contains sid
   if res == "ok" then
+    if live && typ < 2 then
+      s := { s with mQueued := (sid, u) :: s.mQueued }
     if !live then
       s := { s with mParkedL := s.mParkedL ++ [(sid, u)] }
     else if s.mUp.contains sid && !(recvs.any (fun r => r.1 == sid && r.2.contains u)) then
@@ -503,7 +506,9 @@ def monFirstBind (s : St) (sid : Nat) (recvs : List (Nat × List Nat)) : IO St :
   for u in firsts [] parked do
     if !(got.contains u) then
       s ← monitor s "parked-lost" s!"packet {u} was parked for link {sid} before it was registered and did not reach it at the first bind"
-  return { s with mLive := sid :: s.mLive, mParkedL := s.mParkedL.filter (fun x => x.1 != sid) }
+  let reps := (firsts [] parked).filter (fun u => (info u).any (·.2))
+  return { s with mLive := sid :: s.mLive, mParkedL := s.mParkedL.filter (fun x => x.1 != sid),
+                  mQueued := reps.map (fun u => (sid, u)) ++ s.mQueued }
 
 def recvOf (ws : List String) : Option (List (Nat × List Nat)) := (kv? (afterArrow ws) "recv").bind recv?
 
@@ -532,7 +537,7 @@ def step (s : St) (line : String) : IO St := do
                       prev := {}, live := [], responded := [], disciplined := true,
                       expectSame := none, expectRestart := none, cases := s.cases + 1,
                       mch := fun _ => Chan.empty, mRound := [], mInfo := [], mUnacked := [], mAcked := [],
-                      mUp := [], mLive := [], mParkedL := [] }
+                      mUp := [], mLive := [], mParkedL := [], mQueued := [] }
     if s.samples < 3 && s.kind != "race" && !(s.kind.startsWith "script") then
       IO.println s!"SAMPLE {line}"
       return { s with samples := s.samples + 1 }
@@ -855,15 +860,18 @@ def step (s : St) (line : String) : IO St := do
     -- monitor: the first successful ack of inKey k after a response with that key was handed to
     -- this link removes exactly that response (one reply per key in a mailbox)
     if r == "1" then
-      let cand := s.mUnacked.filter (fun x => x.1 == sid &&
-        (s.mInfo.any (fun i => i.1 == x.2 && i.2.2.1 == k && i.2.2.2 < 2)))
+      -- a mailbox holds at most one reply per key and `AckPacket` prefers the reply: a successful
+      -- ack of key k removes the queued reply with that key, received or not
+      let cand := s.mQueued.filter (fun x => x.1 == sid &&
+        (s.mInfo.any (fun i => i.1 == x.2 && i.2.2.1 == k)))
       match cand.head? with
       | some (_, u) =>
         s := { s with mAcked := u :: s.mAcked, mUnacked := s.mUnacked.filter (fun x => x != (sid, u)),
+                      mQueued := s.mQueued.filter (fun x => x != (sid, u)),
                       mAcks := s.mAcks + 1, nontrivial := s.nontrivial + 1 }
       | none =>
-        -- no received response with that key: the ack took a queued add (or a reply the link has
-        -- not seen yet); adds with that key are no longer expected back
+        -- no reply with that key: the ack took a queued add; adds with that key are no longer
+        -- expected back
         s := { s with mUnacked := s.mUnacked.filter (fun x => !(x.1 == sid &&
           s.mInfo.any (fun i => i.1 == x.2 && i.2.2.1 == k && i.2.2.2 == 2))) }
     monRecv s none recvs
@@ -909,7 +917,7 @@ def step (s : St) (line : String) : IO St := do
     monRecv s none recvs
   | "mrestart" :: _ =>
     return { s with mch := fun _ => Chan.empty, mRound := [], mUnacked := [], mUp := [], mLive := [],
-                    mParkedL := [] }
+                    mParkedL := [], mQueued := [] }
   | "race" :: _ =>
     let s := { s with ops := s.ops + 1, races := s.races + 1, xOff := true }
     let rs := (afterArrow ws).headD ""
